@@ -14,6 +14,7 @@ import re
 
 from vt import core
 from vt.main import decide
+from translate import kinds_tr
 
 BASE = ["ID", "STRING", "BOOL", "INT", "FLOAT", "STRICTFLOAT", "NUMBER", "BASETYPE"]
 BASE_BODY = {"NUMBER": ["alt", [["r", "STRICTFLOAT"], ["r", "INT"]]],
@@ -808,7 +809,7 @@ def check_case(chk, c, failures, disagreements):
 
 
 def run(chk):
-    chk.prove([])
+    chk.prove([kinds_tr.translate])
     n = 600 if chk.thorough else 160
     cases = []
     for c in load_corpus():
@@ -827,7 +828,10 @@ def run(chk):
                        "up to 3 inputs derived from each grammar; observed: _tx_type, _tx_inh_by, textx_isinstance for every (rule, rule) pair, "
                        "the number of passes of the kind fixpoint, type names and canonical dump of every loaded model, the captured parse tree; non-trivial = the grammar has at least "
                        "one abstract rule; distinct by grammar text")
-    chk.assumptions += ["Model/Kinds.v transcribes _determine_rule_types, _textx_isinstance and the abstract/match/common branch of "
+    chk.assumptions += ["translator kinds_tr.py (ast): text of _determine_rule_types, textx_isinstance and the abstract/match branch of "
+                        "process_node compared with the transcription; has_change / resolved_classes / abstract-result test / visited test "
+                        "extracted as facts into Gen/SrcKinds.v, on which the model and the theorems depend",
+                        "Model/Kinds.v transcribes _determine_rule_types, _textx_isinstance and the abstract/match/common branch of "
                         "process_node by hand; validated by the correspondence on every case",
                         "the grammar handed to the model is the parser model after _resolve_rule_refs (aliases resolved by "
                         "props/c03.py: resolve_alias, validated by the correspondence on _tx_inh_by)",
